@@ -94,11 +94,22 @@ func (c *zzPC) SetWriteDeadline(t time.Time) error { return nil }
 // with the same key reads back is the payload; packets of <= 8 bytes delivered
 // before it never surface.
 //
-//verif:harness kind=api unwind=128 bound=payload∈{1,2,33}B,junk<=8B
+//verif:harness kind=api unwind=128 bound=payload∈{1,2,33,2039,2040}B,junk<=8B
 func ZZ_C13_ConnTransparent() {
 	key := verifBytes("key", 4)
-	n := []int{1, 2, 33}[verifChoice("payloadLen", 3)]
-	p := verifBytes("payload", n)
+	n := []int{1, 2, 33, 2039, 2040}[verifChoice("payloadLen", 5)] // 2040: the largest payload the wrapper's buffers hold
+	var p []byte
+	if n <= 64 {
+		p = verifBytes("payload", n)
+	} else {
+		// long payloads: first and last bytes symbolic, the rest fixed
+		p = make([]byte, n)
+		for i := range p {
+			p[i] = byte(i)
+		}
+		e := verifBytes("payloadEnds", 4)
+		p[0], p[1], p[n-2], p[n-1] = e[0], e[1], e[2], e[3]
+	}
 	wire := &zzPC{}
 	w, err := WrapPacketConnSalamander(wire, key)
 	verifAssert(err == nil, "wrap ok")
@@ -109,7 +120,7 @@ func ZZ_C13_ConnTransparent() {
 	junk := verifBytes("junk", verifChoice("junkLen", 9))
 	rx := &zzPC{in: [][]byte{junk, wire.out[0]}, readErr: net.ErrClosed}
 	r, _ := WrapPacketConnSalamander(rx, key)
-	buf := make([]byte, 64)
+	buf := make([]byte, 2048)
 	m, addr, err := r.ReadFrom(buf)
 	if len(junk) == 0 {
 		// a zero-length read is handed through by the wrapper as is
